@@ -598,7 +598,14 @@ def _elementwise2(a, b, op):
                 return NotImplemented
         fa, ea = a.snapshot(), a.elem
         tb, eb = _scalar_term(b), _elem_of_scalar(b)
-        probe = _op_terms(op, _probe(a), tb, ea, eb)
+        try:
+            probe = _op_terms(op, _probe(a), tb, ea, eb)
+        except TypeError:
+            # an operator the ELEMENTS do not support (string labels - number ...): NumPy applies it element by element,
+            # so an EMPTY array is not an error (validated in libcheck)
+            if ctx().decide(zint(a.size) == 0 if not isinstance(a.size, int) else a.size == 0, "elementwise operator on an empty array"):
+                return ndarray.from_fn(lambda *i: z3.IntVal(0), a._shape, "O", a.elem)
+            raise
         fn = lambda *idx: _op_terms(op, fa(*idx), tb, ea, eb)[0]
         return ndarray.from_fn(fn, a._shape, probe[1], probe[2])
     if a is None or not isinstance(a, (SymNum, SymBool, int, float, bool, str)):
